@@ -106,3 +106,71 @@ func (c *Ctx) checkMutationClasses(rule string) {
 	}
 	L.Floor(rule, 4, "seven predicates on the pinned tree")
 }
+
+// checkIupacPairTables: the two helpers of package align that compare a pair of IUPAC bit-set
+// codes, tabulated over the 16x16 valid codes: EqualOrCompatible is true iff the codes are equal
+// or share a base (two gaps are equal), with a nil error; NtIUPACDifference is 0 for equal codes
+// and for codes that share a base, 1 otherwise (a gap against a base, two disjoint sets), with a
+// nil error.
+func (c *Ctx) checkIupacPairTables(rule string) {
+	L := c.L
+	L.Rule(rule, "decision tables of align.EqualOrCompatible and align.NtIUPACDifference over the 16x16 valid IUPAC bit-set codes, folded from their SSA form: compatible iff equal or sharing a base; difference 0 iff equal or sharing a base, else 1; no error for a valid code")
+	type spec struct {
+		name string
+		want func(a, b int64) int64
+	}
+	specs := []spec{
+		{"EqualOrCompatible", func(a, b int64) int64 {
+			if a == b || a&b != 0 {
+				return 1
+			}
+			return 0
+		}},
+		{"NtIUPACDifference", func(a, b int64) int64 {
+			if a == b || a&b != 0 {
+				return 0
+			}
+			return 1
+		}},
+	}
+	for _, sp := range specs {
+		r := c.fn("align", "", sp.name)
+		if !r.ok() {
+			continue
+		}
+		var diffs []string
+		decided, n := 0, 0
+		for a := int64(0); a < 16; a++ {
+			for b := int64(0); b < 16; b++ {
+				n++
+				rs, ok := foldPureN(r.F, []int64{a, b}, 0, &foldBudget{})
+				if !ok || len(rs) != 2 || !rs[0].known {
+					continue
+				}
+				decided++
+				if rs[0].k != sp.want(a, b) {
+					diffs = append(diffs, fmt.Sprintf("%s(%d,%d)=%d", sp.name, a, b, rs[0].k))
+				} else if !rs[1].isNil {
+					diffs = append(diffs, fmt.Sprintf("%s(%d,%d) returns an error", sp.name, a, b))
+				}
+			}
+		}
+		what := "table over 16x16 codes"
+		switch {
+		case decided == 0:
+			L.Trivial(rule, r.label, what, c.P.Pos(r.F.Pos()), "the function is not a pure function of its two codes: its table cannot be folded, nothing is decided by this rule")
+		case len(diffs) > 0:
+			more := ""
+			if len(diffs) > 6 {
+				more = fmt.Sprintf(" … (%d entries differ)", len(diffs))
+				diffs = diffs[:6]
+			}
+			L.Bad(rule, r.label, what, c.P.Pos(r.F.Pos()), "the helper differs from its definition: "+strings.Join(diffs, ", ")+more)
+		case decided < n:
+			L.Unknown(rule, r.label, what, c.P.Pos(r.F.Pos()), fmt.Sprintf("only %d of %d entries could be folded", decided, n))
+		default:
+			L.OK(rule, r.label, what, c.P.Pos(r.F.Pos()), "256 entries equal the definition")
+		}
+	}
+	L.Floor(rule, 1, "two helpers on the pinned tree")
+}
